@@ -1014,7 +1014,7 @@ SimpleString StringFromMaskedBits(unsigned long value, unsigned long mask, size_
 {
     SimpleString result;
     size_t bitCount = (byteCount > sizeof(unsigned long)) ? (sizeof(unsigned long) * CPPUTEST_CHAR_BIT) : (byteCount * CPPUTEST_CHAR_BIT);
-    const unsigned long msbMask = (((unsigned long) 1) << (bitCount - 1));
+    const unsigned long msbMask = (bitCount == 0) ? 0 : (((unsigned long) 1) << (bitCount - 1));
 
     for (size_t i = 0; i < bitCount; i++) {
         if (mask & msbMask) {
